@@ -460,6 +460,72 @@ Definition sp_splice (c : cfg) (st : astate) (nx : N) (v : nat) (sb eb : bound) 
     end
   end.
 
+(** what dropping a [Splice] with the cursor at [i, j) does: refused ([inl]), or the events of the drop and the new
+    contents *)
+Definition sp_splice_fin (c : cfg) (a : avec) (s e i j : nat) (ts : list N) (claimed n : N)
+  : panic + (list event * list N) :=
+  let xs := a_xs a in
+  let written := Nat.min (N.to_nat claimed) (N.to_nat n) in
+  let new_len := N.of_nat s + claimed + N.of_nat (length xs - e) in
+  if usize_max <? new_len then inl POverflow
+  else if (match acap c (a_bk a) with Some cap => cap <? new_len | None => false end) then inl PCapacity
+  else inr ((if c_dg c then map EDrop (firstn (j - i) (skipn i xs)) else [])
+             ++ repeat ENext (Nat.min (N.to_nat claimed) (S (N.to_nat n)))
+             ++ (if c_dg c then map EDrop (skipn written ts) else []),
+            VecSpec.sp_splice s e (firstn written ts) xs).
+
+(** splice whose yielded items are also moved into other vectors or forgotten (see [sp_drain_mv]).  A refused move
+    unwinds through the [Splice]: its drop fills the gap as usual - unless that drop is itself refused, a second
+    panic during unwinding, which aborts the process (outside the fragment). *)
+Definition sp_splice_mv0 (c : cfg) (st : astate) (nx : N) (v : nat) (sb eb : bound) (pat : list (bool * sink)) (f : fin)
+           (n : N) (claimed : N) : option sres :=
+    match get_a v st with
+    | None => None
+    | Some a =>
+      let xs := a_xs a in
+      let ts := next_ids c nx (N.to_nat n) in
+      let nx' := nx + n in
+      let item_drops := if c_dg c then map EDrop ts else [] in
+      match range_of_bounds usize_max (N.of_nat (length xs)) (to_sb sb) (to_sb eb) with
+      | None => Some (panic_res (range_panic sb eb) item_drops st nx')
+      | Some (s, e) =>
+          let s := N.to_nat s in let e := N.to_nat e in
+          let hidden := set_a v (Some (with_xs a (firstn s xs))) st in
+          match sp_walk_mv c v xs pat s e hidden with
+          | None => None
+          | Some (WDone rets evs i j st' _) =>
+              match f with
+              | FinForget => Some (ok_res (N.of_nat (e - s) :: rets) evs st' nx')
+              | FinDrop =>
+                  match sp_splice_fin c a s e i j ts claimed n with
+                  | inl p => Some (panic_res p (evs ++ item_drops) st' nx')
+                  | inr (fevs, ys) =>
+                      Some (ok_res (N.of_nat (e - s) :: rets) (evs ++ fevs) (set_a v (Some (with_xs a ys)) st') nx')
+                  end
+              end
+          | Some (WStop p evs i j st' _) =>
+              match sp_splice_fin c a s e i j ts claimed n with
+              | inl _ => None
+              | inr (fevs, ys) => Some (panic_res p (evs ++ fevs) (set_a v (Some (with_xs a ys)) st') nx')
+              end
+          end
+      end
+    end.
+Definition sp_splice_mv (c : cfg) (st : astate) (nx : N) (v : nat) (sb eb : bound) (pat : list (bool * sink)) (f : fin)
+           (rk : rkind) (n : N) (wrong_at : option N) (claimed : N) : option sres :=
+  match rk, wrong_at with
+  | RLazy _, _ | _, Some _ => None
+  | _, None => sp_splice_mv0 c st nx v sb eb pat f n claimed
+  end.
+Lemma sp_splice_mv_inv c st nx v sb eb pat f rk n wrong_at claimed r :
+  sp_splice_mv c st nx v sb eb pat f rk n wrong_at claimed = Some r ->
+  (rk = RWrap \/ rk = RBox) /\ wrong_at = None /\ sp_splice_mv0 c st nx v sb eb pat f n claimed = Some r.
+Proof.
+  unfold sp_splice_mv. intros H.
+  destruct wrong_at as [x|]; [destruct rk; discriminate|].
+  destruct rk; [split; [left; reflexivity|split; [reflexivity|exact H]]|split; [right; reflexivity|split; [reflexivity|exact H]]|discriminate].
+Qed.
+
 (** the values a lazily cloning replacement iterator draws on: element [k mod len] of the source vector for the
     k-th item (the harness cycles through the source) *)
 Definition lazy_srcs (ys : list N) (n : nat) : list N := map (fun k => nth (k mod length ys) ys 0) (seq 0 n).
@@ -830,7 +896,11 @@ Definition spec_step (c : cfg) (st : astate) (nx : N) (o : op) : option sres :=
       | None => sp_drain_mv c st nx v sb eb pat f
       end
   | OSplice _ v sb eb pat f (RLazy src) n None claimed => sp_splice_lazy c st nx v sb eb pat f src n claimed
-  | OSplice _ v sb eb pat f rk n wrong_at claimed => sp_splice c st nx v sb eb pat f rk n wrong_at claimed
+  | OSplice _ v sb eb pat f rk n wrong_at claimed =>
+      match sp_splice c st nx v sb eb pat f rk n wrong_at claimed with
+      | Some r => Some r
+      | None => sp_splice_mv c st nx v sb eb pat f rk n wrong_at claimed
+      end
   | OReserve v n => sp_capacity c st nx v (Some n) false
   | OReserveExact v n => sp_capacity c st nx v (Some n) true
   | OShrinkToFit v => sp_capacity c st nx v None false
